@@ -29,6 +29,14 @@ pub struct Plan {
     pub seed: u64,
     pub gp: u64,
     pub ops: Vec<Op>,
+    /// block bodies older than this many blocks are dropped from memory (reloaded from disk when a
+    /// reorganisation unwinds them)
+    #[serde(default = "default_prune")]
+    pub prune_after: u64,
+}
+
+fn default_prune() -> u64 {
+    8
 }
 
 pub const KINDS: &[&str] = &["receive", "receive", "spend", "spend", "spend-multi", "spend-all", "spend-too-much", "spend-zero", "block-confirm", "block-confirm", "block-plain", "block-drop", "reorg"];
@@ -40,6 +48,7 @@ fn gen(seed: u64, tier: Tier) -> Plan {
         seed,
         gp: *rng.pick(&[4u64, 5, 6, 8, 100, 100]),
         ops: (0..n).map(|_| Op { k: rng.pick(KINDS).to_string(), a: rng.below(64), b: rng.below(64) }).collect(),
+        prune_after: *rng.pick(&[1u64, 2, 3, 8]),
     }
 }
 
@@ -72,7 +81,7 @@ impl Scenario for C19 {
     fn meta(&self) -> Meta {
         Meta {
             level: "exploration",
-            rule: "run = producer chain (genesis period in {4,5,6,8,100}) and a wallet node (real Blockchain + Wallet) that receives every block; 5..40/150 operations from {block paying the wallet key, wallet builds a payment with random amount and fee through Transaction::create, multi-payment, spend everything, ask for more than the balance, zero payment, next block includes the pending wallet transactions, plain block, block that ignores them, competing fork that replaces the tip (reorganisation; ends the strict ledger comparison)}. After every operation: available balance == sum of unspent slips and every unspent key is in the slip table; while no reorganisation happened: the wallet's unspent set == the reference ledger's in-window spendable outputs of the key minus the inputs of wallet-built transactions that are not confirmed; every wallet-built transaction has distinct inputs, outputs <= inputs in u128, and validates against the ledger it was built on. distinct_nontrivial = distinct event sequences with >= 1 spend and >= 1 receive.",
+            rule: "run = producer chain (genesis period in {4,5,6,8,100}) and a wallet node (real Blockchain + Wallet) that receives every block; 5..40/150 operations from {block paying the wallet key, wallet builds a payment with random amount and fee through Transaction::create, multi-payment, spend everything, ask for more than the balance, zero payment, next block includes the pending wallet transactions, plain block, block that ignores them, competing fork of depth 1 .. prune depth + 2 that replaces the last blocks (reorganisation, ends the strict ledger comparison as the property states it for chains without one; block bodies older than the prune depth in {1, 2, 3, 8} are dropped from memory, so the deeper reorganisations unwind blocks that must be read back from the simulated disk)}. After every operation: available balance == sum of unspent slips and every unspent key is in the slip table; while no reorganisation happened: the wallet's unspent set == the reference ledger's in-window spendable outputs of the key minus the inputs of wallet-built transactions that are not confirmed; every wallet-built transaction has distinct inputs, outputs <= inputs in u128, and validates against the ledger it was built on. distinct_nontrivial = distinct event sequences with >= 1 spend and >= 1 receive.",
             real: &["Wallet::on_chain_reorganization/add_slip/delete_slip/remove_old_slips/generate_slips", "Transaction::create/create_with_multiple_payments/sign/validate", "Blockchain::add_block (wind/unwind drive the wallet)"],
             stubs: &["SimIo", "SimConfig", "producer chain builder"],
             assumptions: &["staking slips and NFTs are not generated", "a dropped wallet transaction keeps its inputs committed (the property subtracts pending inputs)"],
@@ -92,7 +101,7 @@ impl Scenario for C19 {
         let mut r = RunResult::default();
         let params = Params { genesis_period: plan.gp, heartbeat: 1000, n_users: 3, slips_per_user: 3, base_amount: 1_000_000 };
         let mut rng = Rng::new(mix(plan.seed, 19));
-        let mut c = match crate::util::guarded(|| Chain::new(plan.seed, params.clone(), 8)) {
+        let mut c = match crate::util::guarded(|| Chain::new(plan.seed, params.clone(), plan.prune_after)) {
             Ok(Ok(c)) => c,
             _ => {
                 r.discarded = true;
@@ -247,10 +256,12 @@ impl Scenario for C19 {
                 "reorg" => {
                     // a competing fork: one block off the tip's parent, then one more -> replaces the tip
                     if c.recs.len() >= 3 && plan.gp >= 100 {
-                        let at = c.recs.len() - 2;
+                        // depth 1 .. prune depth + 2: the deeper ones unwind blocks whose bodies were dropped
+                        let depth = (1 + (op.a % (plan.prune_after + 2)) as usize).min(c.recs.len() - 2);
+                        let at = c.recs.len() - 1 - depth;
                         if let Ok(Ok(mut f)) = crate::util::guarded(|| c.fork_at(at)) {
                             let mut good = true;
-                            for k in 0..2 {
+                            for k in 0..(depth as u64 + 1) {
                                 let tag = f.tag();
                                 let ts = f.tip_rec().ts + tag;
                                 let t = make_tx(&f.keys[3].clone(), &[], &[(f.keys[3].pk, 0)], ts, &tag.to_le_bytes());
@@ -269,8 +280,11 @@ impl Scenario for C19 {
                             }
                             if good && wn.tip().1 == f.tip_rec().hash {
                                 c = f;
-                                strict = false;
+                                strict = false; // the property states the exact-set clause for chains without reorganisation only
                                 r.fault("reorganisation", 1);
+                                if depth as u64 > plan.prune_after {
+                                    r.fault("reorganisation_unwinds_pruned_blocks", 1);
+                                }
                             }
                         }
                     }
@@ -303,6 +317,14 @@ impl Scenario for C19 {
                 };
                 got.sort();
                 if want != got {
+                    if std::env::var("VERIF_DEBUG").is_ok() {
+                        for k in got.iter().filter(|k| !want.contains(k)) {
+                            eprintln!("only in wallet: {:?} committed={}", &k[33..], committed.contains(k));
+                        }
+                        for k in want.iter().filter(|k| !got.contains(k)) {
+                            eprintln!("only in ledger: {:?}", &k[33..]);
+                        }
+                    }
                     let missing = want.iter().filter(|k| !got.contains(k)).count();
                     let extra = got.iter().filter(|k| !want.contains(k)).count();
                     r.violate(
